@@ -936,6 +936,99 @@ func (r *runner) actionMachines(count int) {
 	}
 }
 
+// driveApp is an ActionApp that lets an ActionMachine get past InitActing (the in-repo MockApp's
+// InitState returns an empty allocation): actions stay MockOps, Def/NewData/NewAction are the mock app's.
+type driveApp struct {
+	channel.MockApp
+	c *mach.Ctx
+}
+
+func (a *driveApp) ValidAction(*channel.Params, *channel.State, channel.Index, channel.Action) error {
+	return nil
+}
+
+func (a *driveApp) InitState(p *channel.Params, acts []channel.Action) (channel.Allocation, channel.Data, error) {
+	al := channel.Allocation{Assets: a.c.Assets, Backends: make([]wallet.BackendID, len(a.c.Assets))}
+	al.Balances = make(channel.Balances, len(a.c.Assets))
+	for i := range al.Balances {
+		al.Balances[i] = make([]channel.Bal, len(acts))
+		for j := range acts {
+			al.Balances[i][j] = big.NewInt(int64(10 + i + j))
+		}
+	}
+	return al, channel.NewMockOp(channel.OpValid), nil
+}
+
+func (a *driveApp) ApplyActions(p *channel.Params, s *channel.State, acts []channel.Action) (*channel.State, error) {
+	n := s.Clone()
+	n.Version++
+	return n, nil
+}
+
+// drivenActionMachines clones action machines in the states an operation sequence reaches after
+// InitActing: staged initial state, partial and full signature sets, funded, actions staged for an
+// update, staged update, after complete update rounds (history of previous transactions).
+func (r *runner) drivenActionMachines(count int) {
+	g := r.g
+	for k := 0; k < count; k++ {
+		n := 2 + g.R.Intn(2)
+		c := mach.NewCtx(g, n, g.R.Intn(n), "mock")
+		c.Params.App = &driveApp{MockApp: *cv.MockApp, c: c}
+		m, err := channel.NewActionMachine(c.AccMap(c.Me), *c.Params)
+		if err != nil {
+			panic(err)
+		}
+		snapAt := func(class string) {
+			o := ptrTo(m)
+			r.process(kase{kind: "KAM", site: "channel.ActionMachine.Clone", class: class, shape: fmt.Sprintf("n%d", n), orig: o,
+				clone: func() interface{} { return ptrTo((*o).Clone()) },
+				equal: func(cl interface{}) string { return sourceEqual(*o, *cl.(**channel.ActionMachine)) }})
+		}
+		must := func(err error) {
+			if err != nil {
+				panic(err)
+			}
+		}
+		signAll := func(partialAt int) {
+			_, err := m.Sig()
+			must(err)
+			for i := 0; i < n; i++ {
+				if i == c.Me {
+					continue
+				}
+				if i == partialAt {
+					snapAt("driven/partial-sigs")
+				}
+				must(m.AddSig(channel.Index(i), c.Sign(i, m.StagingState())))
+			}
+		}
+		for i := 0; i < n; i++ {
+			must(m.AddAction(channel.Index(i), channel.NewMockOp(channel.OpValid)))
+		}
+		must(m.Init())
+		snapAt("driven/init-signing")
+		signAll(g.R.Intn(n))
+		snapAt("driven/init-signed")
+		must(m.EnableInit())
+		must(m.SetFunded())
+		snapAt("driven/acting")
+		rounds := 1 + g.R.Intn(3)
+		for u := 0; u < rounds; u++ {
+			for i := 0; i < n; i++ {
+				if g.R.Intn(3) > 0 {
+					must(m.AddAction(channel.Index(i), channel.NewMockOp(channel.MockOp(g.R.Intn(3)))))
+				}
+			}
+			snapAt("driven/acting-actions")
+			must(m.Update())
+			snapAt("driven/signing")
+			signAll(g.R.Intn(n))
+			must(m.EnableUpdate())
+		}
+		snapAt("driven/history")
+	}
+}
+
 // Run generates the inputs, runs the real Clone methods, checks the oracle and writes the cases.
 func Run(seed int64, tier, out string) {
 	hx.Seed(seed)
@@ -966,6 +1059,7 @@ func Run(seed int64, tier, out string) {
 	}
 	r.machines(nm, ml)
 	r.actionMachines(na)
+	r.drivenActionMachines(na)
 	res.Samples = append(res.Samples, map[string]interface{}{"writes_applied_by_the_observation_oracle": r.writes})
 	w.Close()
 	res.Write(out)
